@@ -299,6 +299,10 @@ class SymbolLatexPrinter(LatexPrinter):  # type: ignore[misc]
             elif term.could_extract_minus_sign():
                 tex += " - "
                 term = -term
+                # a subtracted sum keeps its brackets: x - (y + z)
+                if term.is_Add:
+                    tex += f"\\left({self._print(term)}\\right)"
+                    continue
             else:
                 tex += " + "
             term_tex = self._print(term)
